@@ -254,6 +254,20 @@ func BinBV(op string, a, b *Term) *Term {
 		if b.isConst() && a.op == "bvadd" && a.args[1].isConst() {
 			return BinBV("bvadd", a.args[0], BV(w, a.args[1].val+b.val))
 		}
+		// (x + c1) + y  and  x + (y + c2): keep the constant outermost
+		if !b.isConst() {
+			ca, cb := uint64(0), uint64(0)
+			aa, bb := a, b
+			if a.op == "bvadd" && a.args[1].isConst() {
+				aa, ca = a.args[0], a.args[1].val
+			}
+			if b.op == "bvadd" && b.args[1].isConst() {
+				bb, cb = b.args[0], b.args[1].val
+			}
+			if aa != a || bb != b {
+				return BinBV("bvadd", BinBV("bvadd", aa, bb), BV(w, ca+cb))
+			}
+		}
 	case "bvsub":
 		if b.isConst() && b.val == 0 {
 			return a
@@ -278,6 +292,36 @@ func BinBV(op string, a, b *Term) *Term {
 		if b.isConst() {
 			return BinBV("bvadd", a, BV(w, -b.val))
 		}
+		// (c1 + sum A) - (c2 + sum B) with B a sub-multiset of A: the common atoms cancel (modular identity)
+		{
+			ca, as := linDecomp(a)
+			cb, bs := linDecomp(b)
+			if len(bs) > 0 && len(bs) <= len(as) && (len(as) > 1 || len(bs) > 1) {
+				rest := append([]*Term(nil), as...)
+				all := true
+				for _, x := range bs {
+					found := false
+					for i, y := range rest {
+						if y == x {
+							rest = append(rest[:i], rest[i+1:]...)
+							found = true
+							break
+						}
+					}
+					if !found {
+						all = false
+						break
+					}
+				}
+				if all {
+					acc := BV(w, 0)
+					for _, y := range rest {
+						acc = BinBV("bvadd", acc, y)
+					}
+					return BinBV("bvadd", acc, BV(w, (ca-cb)&mask(w)))
+				}
+			}
+		}
 	case "bvmul":
 		if b.isConst() && b.val == 1 {
 			return a
@@ -295,9 +339,21 @@ func BinBV(op string, a, b *Term) *Term {
 		if b.isConst() && b.val == 1 {
 			return a
 		}
+		// (c + r) / d with r small: no carry into the quotient
+		if b.isConst() && b.val > 1 {
+			if c, r, ok := smallOffset(a, b.val); ok && c != 0 {
+				_ = r
+				return BV(w, c/b.val)
+			}
+		}
 	case "bvurem":
 		if b.isConst() && b.val == 1 {
 			return BV(w, 0)
+		}
+		if b.isConst() && b.val > 1 {
+			if c, r, ok := smallOffset(a, b.val); ok && c >= b.val {
+				return BinBV("bvadd", r, BV(w, c%b.val))
+			}
 		}
 	case "bvand":
 		if a == b {
@@ -893,4 +949,45 @@ func sliceFor(pc []*Term, c *Term) []*Term {
 		}
 	}
 	return out
+}
+
+// linDecomp flattens nested bvadd into a constant and a list of non-constant atoms.
+func linDecomp(t *Term) (uint64, []*Term) {
+	if t.isConst() {
+		return t.val, nil
+	}
+	if t.op == "bvadd" {
+		c1, a1 := linDecomp(t.args[0])
+		c2, a2 := linDecomp(t.args[1])
+		return (c1 + c2) & mask(t.w), append(a1, a2...)
+	}
+	return 0, []*Term{t}
+}
+
+// smallOffset: t = c + r (no wrap-around) where r's maximum plus c mod d stays below d, so that
+// t/d == c/d and t%d == c%d + r.
+func smallOffset(t *Term, d uint64) (uint64, *Term, bool) {
+	if t.op != "bvadd" {
+		return 0, nil, false
+	}
+	c, atoms := linDecomp(t)
+	if len(atoms) == 0 {
+		return 0, nil, false
+	}
+	var sum uint64
+	for _, a := range atoms {
+		u := umax(a)
+		if sum+u < sum {
+			return 0, nil, false
+		}
+		sum += u
+	}
+	if c+sum < c || c+sum > mask(t.w) || sum+c%d < sum || sum+c%d >= d {
+		return 0, nil, false
+	}
+	r := BV(t.w, 0)
+	for _, a := range atoms {
+		r = BinBV("bvadd", r, a)
+	}
+	return c, r, true
 }
